@@ -34,9 +34,9 @@ ASSUMPTIONS = [
     "comment bodies do not begin/end with '+' or '-' and are non-empty (ambiguous with a modifier)",
     "lstrip_blocks before a tag preceded on its line by whitespace other than spaces/tabs is not judged (configuration skipped, counted)",
     "environments are reused across cases inside a worker (configuration objects only)",
-    "each of a case's configurations is realised by one creation route (fresh Environment / overlay of an already used environment) and one "
+    "each of a case's configurations is realised by one creation route (fresh Environment / overlay of an already used environment / jinja2.Template(source, **options)) and one "
     "finalize kind (none / plain / pass_environment / pass_context / pass_eval_context, all string-altering), rotating with a hash of the "
-    "source, so every case sees both routes and every finalize kind; template data must never be finalized (docs/api.rst)",
+    "source, so every case sees all routes and every finalize kind; template data must never be finalized (docs/api.rst)",
 ]
 
 NK = [(n, k) for n in ws.NL_SEQS for k in (False, True)]
@@ -44,7 +44,8 @@ _envs = {}
 
 
 FINALIZERS = ["none", "plain", "pass_environment", "pass_context", "pass_eval_context"]
-ROUTES = ["fresh", "overlay"]
+ROUTES = ["fresh", "overlay", "template"]
+_fins = {}
 
 
 def _finalizer(kind):
@@ -52,16 +53,20 @@ def _finalizer(kind):
     'a callable that can be used to process the result of a variable expression before it is output')"""
     import jinja2
 
+    if kind in _fins:  # one function object per kind (Template(...) keys its shared environments on it)
+        return _fins[kind]
     if kind == "none":
-        return None
-    if kind == "plain":
-        return lambda v: "<%s>" % (v,)
-    deco = getattr(jinja2, kind)
+        fin = None
+    elif kind == "plain":
+        fin = lambda v: "<%s>" % (v,)  # noqa: E731
+    else:
+        deco = getattr(jinja2, kind)
 
-    @deco
-    def fin(first, v):
-        return "<%s>" % (v,)
+        @deco
+        def fin(first, v):
+            return "<%s>" % (v,)
 
+    _fins[kind] = fin
     return fin
 
 
@@ -85,10 +90,20 @@ def get_env(syn_name, trim, lstrip, nls, ktn, fin="none", route="fresh"):
     return env
 
 
+def render(src, syn_name, trim, lstrip, nls, ktn, fin, route):
+    """route 'template': the jinja2.Template(source, **options) constructor"""
+    if route == "template":
+        from jinja2 import Template
+
+        return Template(src, trim_blocks=trim, lstrip_blocks=lstrip, newline_sequence=nls, keep_trailing_newline=ktn,
+                        finalize=_finalizer(fin), **skel.env_kwargs(skel.syntax(syn_name))).render()
+    return get_env(syn_name, trim, lstrip, nls, ktn, fin, route).from_string(src).render()
+
+
 def _variant(h, j):
-    """finalize variant and creation route for configuration number j of a case with hash h: every case sees both routes
+    """finalize variant and creation route for configuration number j of a case with hash h: every case sees all routes
     and (with 6 configurations) every finalize kind"""
-    return FINALIZERS[(h + j) % len(FINALIZERS)], ROUTES[(h // 5 + j) % 2]
+    return FINALIZERS[(h + j) % len(FINALIZERS)], ROUTES[(h // 5 + j) % len(ROUTES)]
 
 
 LONE = set("{}%#")
@@ -102,7 +117,7 @@ def _plain(case):
     for j, (nls, ktn) in enumerate(NK):
         exp = ws.plain_text(src, nls, ktn)
         fin, route = _variant(h, j)
-        got = get_env("default", False, False, nls, ktn, fin, route).from_string(src).render()
+        got = render(src, "default", False, False, nls, ktn, fin, route)
         if got != exp:
             raise core.Violation("plain text not rendered verbatim\n source: %r\n newline_sequence=%r keep_trailing_newline=%s finalize=%s environment=%s\n expected: %r\n rendered: %r"
                                  % (src, nls, ktn, fin, route, exp, got))
@@ -166,7 +181,7 @@ def _skel(case):
                 exp = a.rendered(nls)
                 j += 1
                 fin, route = _variant(h, j)
-                got = get_env(syn_name, trim, lstrip, nls, ktn, fin, route).from_string(src).render()
+                got = render(src, syn_name, trim, lstrip, nls, ktn, fin, route)
                 cfg = "trim_blocks=%s lstrip_blocks=%s newline_sequence=%r keep_trailing_newline=%s syntax=%s finalize=%s environment=%s" % (
                     trim, lstrip, nls, ktn, syn_name, fin, route)
                 if got != exp:
